@@ -432,6 +432,56 @@ def run(tier, seed):
             fails += 1
             rep.violation("tee:handle", {"children": n, "why": why})
             break
+    # the whole tee is closed while one task is suspended inside a child's __anext__: closing that child is refused
+    # (RuntimeError), every *other* child is closed and deregistered all the same
+    for busy in (0, 1, 2):
+        src = Source(mk_items(6), 1)
+        t = a.tee(src, 3)
+        kids = list(t)
+
+        async def _adv(ch):
+            return await ch.__anext__()
+        try:
+            started = (busy + 1) % 3
+            drive_steps = _adv(kids[started])
+            try:
+                drive_steps.send(None)
+                drive_steps.send(None)
+            except StopIteration:
+                pass
+            drive(_adv(kids[busy]))                  # takes the buffered item: its buffer is empty again
+            pending = _adv(kids[busy])
+            pending.send(None)                       # now suspended in the source, inside child `busy`
+            try:
+                drive(t.aclose())
+                closed_ok = "closed"
+            except RuntimeError:
+                closed_ok = "refused for the busy child"
+            others = [i for i in range(3) if i != busy]
+            after = []
+            for i in others:
+                try:
+                    c_ = kids[i].__anext__()
+                    c_.send(None)
+                    after.append("child %d advanced the source" % i)
+                    c_.close()
+                except StopAsyncIteration:
+                    after.append("dead")
+                except StopIteration:
+                    after.append("child %d still yields" % i)
+            bufs = getattr(t, "_buffers", [])
+            why = None
+            if after != ["dead", "dead"]:
+                why = "after tee.aclose() (%s) the other children: %r" % (closed_ok, after)
+            elif len(bufs) > 1:
+                why = "after tee.aclose() %d buffers are still registered" % len(bufs)
+            pending.close()
+        except BaseException as e:  # noqa
+            why = "failed with %r" % (e,)
+        rep.count(("tee-close-busy", busy), True)
+        if why:
+            fails += 1
+            rep.violation("tee:handle", {"children": 3, "busy_child": busy, "why": why})
     # items are opaque to a tee: objects that claim to equal everything (or whose comparison / truth test raises) travel
     # through it like any other item, for every interleaving of the children
     class EqualsAll:
